@@ -61,7 +61,7 @@ class Terms:
 
 
 class Buffer:
-    __slots__ = ("kind", "name", "shape", "cells", "serial")
+    __slots__ = ("kind", "name", "shape", "cells", "serial", "ts", "direct")
 
     def __init__(self, kind, name, shape, cells, serial=0):
         self.kind = kind
@@ -69,6 +69,8 @@ class Buffer:
         self.shape = tuple(shape)
         self.cells = cells  # list of terms, row-major over shape
         self.serial = serial
+        self.ts = [0] * len(cells)  # when the data in the cell was produced (0 = initial content)
+        self.direct = [False] * len(cells)  # the cell was last written by a tagged op (not by a copy)
 
     def __repr__(self):
         return f"{self.kind}:{self.name}#{self.serial}"
@@ -86,10 +88,13 @@ class View:
         c = self.buf.cells
         return tuple(c[i] for i in self.idx)
 
-    def write(self, terms):
-        c = self.buf.cells
+    def write(self, terms, now):
+        """Write by a tagged op at time `now`."""
+        b = self.buf
         for i, t in zip(self.idx, terms):
-            c[i] = t
+            b.cells[i] = t
+            b.ts[i] = now
+            b.direct[i] = True
 
     def __repr__(self):
         return f"view<{self.buf!r} {list(self.shape)}>"
@@ -166,6 +171,9 @@ class BufMachine(Machine):
         self.global_ops = {}
         self.nalloc = 0
         self.ncopies = 0
+        self.clobbers = 0
+        self.now = 0
+        self.root_allocs = None
         for op in module.walk():
             if op.name == "memref.global":
                 self.global_ops[op.sym_name.data] = op
@@ -253,7 +261,7 @@ class BufMachine(Machine):
                 self.problems.append(("copy-shape-mismatch", f"{s.shape} -> {d.shape}"))
                 raise InterpError("memref.copy shape mismatch")
             self.ncopies += 1
-            d.write(s.read())
+            self._copy(s, d)
             return []
         if n == "memref.dim":
             v, i = operands
@@ -264,6 +272,22 @@ class BufMachine(Machine):
         if tag is not None:
             return self._tagged(op, operands, tag.value.data)
         return NotImplemented
+
+    def _copy(self, s, d):
+        sb, db = s.buf, d.buf
+        data = [(sb.cells[i], sb.ts[i]) for i in s.idx]
+        clobber = False
+        standin = db.kind == "alloc" and self.root_allocs is not None and db.serial > self.root_allocs
+        for j, (t, ts) in zip(d.idx, data):
+            if standin and db.direct[j] and db.ts[j] > ts:
+                clobber = True
+            db.cells[j] = t
+            db.ts[j] = ts
+            db.direct[j] = False
+        if clobber:
+            # a copy into a buffer standing in for a cast replaced data that a tagged op had written there later than the
+            # copied data was produced: the op's result is lost
+            self.clobbers += 1
 
     def _subview(self, op, operands):
         src = operands[0]
@@ -306,16 +330,18 @@ class BufMachine(Machine):
             self.trace.append((tag, n, read, tuple(k for k, _ in ins)))
             taint = any(self.terms.is_tainted(t) for r in read for t in r)
             dig = self.terms.mk(("in", read, scal), taint=taint)
+            self.now += 1
             for k, v in outs:
                 cnt = len(v.idx)
-                v.write([self.terms.mk(("f", tag, k, e, dig), taint=taint) for e in range(cnt)])
+                v.write([self.terms.mk(("f", tag, k, e, dig), taint=taint) for e in range(cnt)], self.now)
         else:
             read = tuple(v.read() for _, v in mem)
             self.trace.append((tag, n, read, tuple(k for k, _ in mem)))
             taint = any(self.terms.is_tainted(t) for r in read for t in r)
             dig = self.terms.mk(("in", read), taint=taint)
+            self.now += 1
             for k, v in mem:
-                v.write([self.terms.mk(("g", tag, k, e, dig), taint=taint) for e in range(len(v.idx))])
+                v.write([self.terms.mk(("g", tag, k, e, dig), taint=taint) for e in range(len(v.idx))], self.now)
         # results (tensors are never generated): opaque ints
         return [0 for _ in op.results]
 
@@ -331,9 +357,11 @@ class Run:
         self.arg_bufs = arg_bufs
 
 
-def run(module, fname, terms: Terms, arg_spec, step_budget=20000) -> Run:
-    """arg_spec: list of ("mem", shape) | ("int", value) in function argument order."""
+def run(module, fname, terms: Terms, arg_spec, step_budget=20000, root_allocs=None) -> Run:
+    """arg_spec: list of ("mem", shape) | ("int", value) in function argument order.
+    root_allocs: the first so many executed memref.alloc are buffers of the input program; later ones stand in for casts."""
     m = BufMachine(module, terms)
+    m.root_allocs = root_allocs
     it = Interp(module, m, step_budget=step_budget)
     args = []
     bufs = []
@@ -345,6 +373,8 @@ def run(module, fname, terms: Terms, arg_spec, step_budget=20000) -> Run:
         else:
             args.append(int(a[1]))
     ret = it.call(fname, args)
+    for name in list(m.global_ops):  # globals are externally visible whether or not this run touched them
+        m._global(name, None)
     return Run(m, ret, bufs)
 
 
@@ -391,7 +421,7 @@ def compare(terms: Terms, ref: Run, out: Run):
             if d is not None:
                 mis.append(("global-ends-with-different-data", dict(buffer=name, seen_as=bb.name, element=d[0], expected=d[1], got=d[2])))
                 break
-        if name not in outg and name not in out.m.global_ops and not any(base_global_name(g) == name for g in out.m.global_ops):
+        if name not in outg:
             mis.append(("global-disappeared", dict(buffer=name)))
     # returned memrefs
     for k, (va, vb) in enumerate(zip(ref.returned, out.returned)):
